@@ -39,9 +39,13 @@ def gen_case(rnd, quick):
         opts = rnd.choice([0, 1, 2, 3, 4, 5, 6, 7])
         if cfg == "ini" and L == 0 and N == 0:
             pass
+    reruns = rnd.choice([1, 1, 1, 2, 3, 4]) if n <= 2000 else 1
+    if 0 < L < size and N <= 0 and n > 100:
+        # every message rotates and nothing is ever removed: one file per message, and each rotation lists them all
+        reruns, n = 1, min(n, 500)
     return {"cfg": cfg, "n": n, "size": size, "nthreads": nthreads, "fatal_thread": fatal_thread, "L": L, "N": N,
             "opts": opts, "withapp": rnd.randint(0, 1), "stderr": rnd.choice(["null", "null", "full"]),
-            "reruns": rnd.choice([1, 1, 1, 2, 3, 4]) if n <= 2000 else 1}
+            "reruns": reruns}
 
 
 BASE = 1000000
@@ -183,6 +187,8 @@ def run(ctx):
             for n, size in ((3, 5), (100, 200), (2000, 200)):
                 c = gen_case(rnd, ctx.quick)
                 c.update(cfg=cfg, n=n, size=size)
+                if 0 < c["L"] < size and c["N"] <= 0 and n > 100:
+                    c.update(reruns=1, n=min(n, 500))
                 if cfg == "fluent":
                     c.update(L=0, N=0, opts=0)
                 cases.append(c)
